@@ -190,6 +190,7 @@ type genTx struct {
 	gb, rc uint64 // refund hook: gas used before refund, refund counter
 	cosFee *big.Int
 	cosGas uint64
+	prime  []byte // the same signed Ethereum payload wrapped honestly (From = its real signer): offered to CheckTx first
 }
 
 // records of the verif-tag refund hook, in execution order: {gasUsedBeforeRefund, counter, applied, remaining}
@@ -283,6 +284,13 @@ func runBlocks(t *testing.T, f *blockFixture, rng *hx.Rng, p *hx.Proto, nTx int)
 		raw := make([][]byte, len(txs))
 		for i, g := range txs {
 			raw[i] = g.bytes
+		}
+		for _, g := range txs {
+			if g.prime != nil {
+				_, _ = c.app.CheckTx(&abci.RequestCheckTx{Tx: g.prime, Type: abci.CheckTxType_New})
+				_, _ = c.app.CheckTx(&abci.RequestCheckTx{Tx: g.prime, Type: abci.CheckTxType_Recheck})
+				p.Count("primed-by-checktx")
+			}
 		}
 		hookRecs = hookRecs[:0]
 		res := c.finalize(raw)
@@ -780,6 +788,13 @@ func (f *blockFixture) genTx(rng *hx.Rng, baseFee *big.Int, ws []*itutiltypes.Te
 	}
 	raw, tx := c.buildEthTx(a)
 	g.bytes, g.ethTx = raw, tx
+	if g.kind == "from-mismatch" && a.signWith != nil && rng.Chance(4, 5) {
+		// the attacker's own, correctly wrapped transaction is seen by the mempool first (signatures are deterministic:
+		// the very same payload and hash); the forged wrapper that names another sender goes into the block
+		h := a
+		h.from, h.signWith, h.declaredFrom = a.signWith, nil, nil
+		g.prime, _ = c.buildEthTx(h)
+	}
 	ig, err := core.IntrinsicGas(a.data, a.access, a.to == nil, true, true)
 	if err != nil {
 		ig = 0
